@@ -81,22 +81,38 @@ def run(ctx):
 
     # ---- R15.2 when a search happens --------------------------------------------------
     Tp = M.Terms(pe)
-    c0 = prog.fn("posix::prep_exec::{closure#0}")
-    c1 = prog.fn("posix::prep_exec::{closure#1}")
-    okc0 = False
-    if c0:
-        r = M.Terms(c0).local(0)
-        okc0 = r[0] == "bin" and r[1] == "Eq" and const_of(r[3]) == 0x2F and M.strip(r[2])[0] == "param"
-    ctx.ob("R15.2", "slash-predicate", okc0, c0.loc(0) if c0 else "", "the predicate deciding 'has a slash' must be `byte == b'/'`")
-    anyc = pe.calls_to(lambda f: M.callee_str(f).endswith("Iterator>::any"))
-    ok = len(anyc) == 1
-    if ok:
-        a = [Tp.operand(x) for x in anyc[0][1]["args"]]
-        src = M.noref(M.strip(a[0], also=("core::slice::<impl [T]>::iter",)))
-        ok = a[1] == ("agg", ("closure", "posix::prep_exec::{closure#0}"), ()) and M.strip(src, also=("<std::ffi::OsStr as std::borrow::ToOwned>::to_owned",)) == ("param", 1, pe.local_name(1))
-    ctx.ob("R15.2", "slash-test-over-cmd", ok, pe.loc(anyc[0][0] if anyc else 0), "any(b == '/') must run over the bytes of the command name")
-    t_e = bool_edges(pe, Tp, lambda c: c[0] == "call" and c[1].endswith("Iterator>::any"), True)
-    f_e = bool_edges(pe, Tp, lambda c: c[0] == "call" and c[1].endswith("Iterator>::any"), False)
+    # the 'has a slash' test: bytes(cmd).iter().any(|b| b == b'/')  or  bytes(cmd).contains(&b'/') — the closure is taken from the call, not by number
+    BYTES = ("core::slice::<impl [T]>::iter", "<std::ffi::OsStr as std::borrow::ToOwned>::to_owned", "std::ffi::OsString::as_os_str")
+    def _is_slash_pred(cl):
+        if not (cl[0] == "agg" and cl[1][0] == "closure"):
+            return False
+        cf = prog.fn(cl[1][1])
+        if cf is None:
+            return False
+        r = M.Terms(cf).local(0)
+        return r[0] == "bin" and r[1] == "Eq" and const_of(r[3]) == 0x2F and M.strip(r[2])[0] == "param"
+    slash_tests = []   # (bb, source term, matcher for the bool result)
+    for bb_, t_ in pe.calls():
+        cs_ = M.callee_str(t_["f"])
+        a_ = [Tp.operand(x) for x in t_["args"]]
+        if cs_.endswith("Iterator>::any") and len(a_) == 2 and _is_slash_pred(a_[1]):
+            slash_tests.append((bb_, a_[0], cs_))
+        elif cs_.endswith("<impl [T]>::contains") and len(a_) == 2 and const_of(M.noref(a_[1])) == 0x2F:
+            slash_tests.append((bb_, a_[0], cs_))
+    ctx.ob("R15.2", "slash-predicate", len(slash_tests) == 1, pe.loc(slash_tests[0][0]) if slash_tests else pe.loc(0),
+           "prep_exec must decide 'has a slash' by exactly one test of the form any(byte == b'/') / contains(&b'/') (found %d)" % len(slash_tests))
+    ok = False
+    st_name = "Iterator>::any"
+    if len(slash_tests) == 1:
+        src = M.noref(M.strip(slash_tests[0][1], also=BYTES))
+        ok = M.noref(M.strip(src, also=BYTES)) == ("param", 1, pe.local_name(1))
+        st_name = slash_tests[0][2]
+    st_bb = slash_tests[0][0] if slash_tests else None
+    ctx.ob("R15.2", "slash-test-over-cmd", ok, pe.loc(st_bb or 0), "the slash test must run over the bytes of the command name (the executable when one is named), not over argv[0] or anything else")
+    is_st = lambda c: c[0] == "call" and c[1] == st_name and (len(c) < 4 or c[3] == st_bb)
+    c1 = None
+    t_e = bool_edges(pe, Tp, is_st, True)
+    f_e = bool_edges(pe, Tp, is_st, False)
     sp_locals = [i for i, l in enumerate(pe.locals) if l.get("name") == "search_path"]
     for l in sp_locals:
         for (bb, si, r) in pe.defs().get(l, []):
@@ -107,7 +123,9 @@ def run(ctx):
                 ctx.ob("R15.2", "slash=>no-search", dominated_by_edges(pe, bb, t_e), pe.loc(bb), "search_path = None only when the name contains a slash")
             else:
                 okv = v[0] == "call" and v[1] == "std::option::Option::<T>::and_then" and v[2][0][0] == "call" and v[2][0][1] == "std::env::var_os" and v[2][0][2][0][1] == "PATH" \
-                    and v[2][1] == ("agg", ("closure", "posix::prep_exec::{closure#1}"), ())
+                    and v[2][1][0] == "agg" and v[2][1][1][0] == "closure"
+                if okv:
+                    c1 = prog.fn(v[2][1][1][1])
                 ctx.ob("R15.2", "no-slash=>PATH", okv and dominated_by_edges(pe, bb, f_e), pe.loc(bb), "search_path = %s (must be var_os(\"PATH\") filtered for emptiness, on the no-slash edge)" % M.term_str(v)[:120])
     okc1 = False
     if c1:
